@@ -19,7 +19,7 @@ import (
 
 var zzLockOps = []string{"Define", "DefineGlobal", "Set", "Get", "Delete", "DeleteGlobal", "GetValueSymbols",
 	"NewEnv", "NewModule", "Addr", "String", "DefineType", "DefineGlobalType", "Type", "GetTypeSymbols",
-	"Copy", "DeepCopy", "GetEnvFromPath", "DefineValue", "SetValue", "GetValue", "DefineReflectType"}
+	"Copy", "DeepCopy", "GetEnvFromPath", "GetEnvFromPath2", "GetEnvFromPath3", "DefineValue", "SetValue", "GetValue", "DefineReflectType"}
 
 func zzLockOp(e *Env, op int, name string, v int64) {
 	switch zzLockOps[op] {
@@ -59,6 +59,10 @@ func zzLockOp(e *Env, op int, name string, v int64) {
 		e.DeepCopy()
 	case "GetEnvFromPath":
 		e.GetEnvFromPath([]string{name})
+	case "GetEnvFromPath2":
+		e.GetEnvFromPath([]string{"m", name})
+	case "GetEnvFromPath3":
+		e.GetEnvFromPath([]string{"m", "m2", name})
 	case "DefineValue":
 		e.DefineValue(name, reflect.ValueOf(v))
 	case "SetValue":
@@ -77,6 +81,29 @@ func ZZ_C13_D1_lock_discipline() {
 	op := zz.Choose(len(zzLockOps))
 	t := len(w.real) - 1
 	name := []string{"a", "n"}[zz.Choose(2)]
+	zzLockDiscipline(w, op, t, name)
+}
+
+// ZZ_C13_D1_lock_discipline_paths: path lookups through modules m and m.m2,
+// including every failing path (an element absent, or bound to a non-module).
+func ZZ_C13_D1_lock_discipline_paths() {
+	zzFillMode = 1
+	zzNames = []string{"a"}
+	w := zzWorldShape(4+zz.Choose(2), false)
+	zzFillMode = 0
+	ops := []int{}
+	for i, n := range zzLockOps {
+		if len(n) >= 14 && n[:14] == "GetEnvFromPath" {
+			ops = append(ops, i)
+		}
+	}
+	op := ops[zz.Choose(len(ops))]
+	t := zz.Choose(len(w.real))
+	name := []string{"a", "n", "m", "m2"}[zz.Choose(4)]
+	zzLockDiscipline(w, op, t, name)
+}
+
+func zzLockDiscipline(w *zzWorld, op, t int, name string) {
 	v := zz.Int64()
 	opName := zzLockOps[op]
 	if zz.Symbolic() {
@@ -89,7 +116,16 @@ func ZZ_C13_D1_lock_discipline() {
 		zz.Assert(zz.LocksHeld() == 0, "C13.D1.locks-released/"+opName)
 		return
 	}
-	// native oracle: race detector
+	// native oracle for leaked locks: every scope's mutex can be taken afterwards
+	zzLockOp(w.real[t], op, name, v)
+	for _, e := range w.real {
+		if !e.rwMutex.TryLock() {
+			zz.Assert(false, "C13.D1.locks-released/"+opName)
+			return
+		}
+		e.rwMutex.Unlock()
+	}
+	// native oracle for the discipline: race detector
 	for i := 0; i < 20; i++ {
 		w2 := &zzWorld{}
 		zzAddScope(w2, -1)
